@@ -193,7 +193,7 @@ func ruleR26() *Rule {
 						continue
 					} else {
 						p, ok := root(rs).(*ssa.Parameter)
-						if !ok || p.Name() != t.param {
+						if !ok || canonParamName(p) != t.param {
 							continue
 						}
 					}
@@ -241,8 +241,19 @@ func ruleR26() *Rule {
 						if !ok || bo.Op != token.LSS {
 							continue
 						}
-						ph, ok := bo.X.(*ssa.Phi)
-						if !ok || !strings.Contains(ph.Comment, "fieldID") {
+						// the counter runs up to a count decoded from the file (a result of binary.Uvarint)
+						if _, ok := bo.X.(*ssa.Phi); !ok {
+							continue
+						}
+						isDecoded := false
+						if ex, ok := bo.Y.(*ssa.Extract); ok {
+							if call, ok := ex.Tuple.(*ssa.Call); ok {
+								if f := call.Call.StaticCallee(); f != nil && f.String() == "encoding/binary.Uvarint" {
+									isDecoded = true
+								}
+							}
+						}
+						if !isDecoded {
 							continue
 						}
 						n++
